@@ -409,6 +409,14 @@ func (g *DocGen) Doc(id string) *Value {
 				it := vMap()
 				it.Set("k", vStr(Pick(r, wordPool)))
 				it.Set("v", vInt(r.Range(0, 9)))
+				if i > 0 && !g.Full && r.Chance(1, 4) {
+					// ragged rows: keys the first row does not have
+					for _, xk := range []string{"w", "u", "t"} {
+						if r.Chance(2, 3) {
+							it.Set(xk, vInt(r.Range(0, 9)))
+						}
+					}
+				}
 				e.Kids = append(e.Kids, it)
 			}
 			m.Set("e", e)
